@@ -8,6 +8,7 @@ require (
 	github.com/anishathalye/porcupine v1.3.0
 	github.com/herumi/bls-go-binary v1.33.0
 	github.com/linxGnu/grocksdb v1.8.1
+	github.com/tinylib/msgp v1.1.6
 	go.uber.org/zap v1.24.0
 )
 
@@ -99,7 +100,6 @@ require (
 	github.com/spf13/viper v1.16.0 // indirect
 	github.com/stretchr/testify v1.9.0 // indirect
 	github.com/subosito/gotenv v1.4.2 // indirect
-	github.com/tinylib/msgp v1.1.6 // indirect
 	github.com/valyala/gozstd v1.20.1 // indirect
 	github.com/vmihailenco/msgpack/v5 v5.4.0 // indirect
 	github.com/vmihailenco/tagparser/v2 v2.0.0 // indirect
